@@ -204,7 +204,7 @@ theorem mutator_agree (F : FloatOps) (s s' : C3D) (op : Op) (hM : Mand s.groups)
     (hF : ∀ a b, F.ratioNat a b < two32)
     (hop : ∀ g p, op ≠ .parameter g p) (hl : ∀ g, op ≠ .lockGroup g) (hu : ∀ g, op ≠ .unlockGroup g)
     (hs : ∀ ol oa np na, strsOf s.groups POINT LABELS = .ok ol → strsOf s.groups ANALOG LABELS = .ok oa →
-            (np = [] ∨ ∃ n, op = .point n ∧ np = [n]) → (na = [] ∨ ∃ n, op = .analog n ∧ na = [n]) → Small s'.frames ol oa np na)
+            (np = [] ∨ ∃ n, op = .point n ∧ np = [rtrim n]) → (na = [] ∨ ∃ n, op = .analog n ∧ na = [rtrim n]) → Small s'.frames ol oa np na)
     (h : step F s op = .ok s') : Agree F s' := by
   obtain ⟨ol, hol⟩ := hM.strs POINT LABELS mem_slots_PL
   obtain ⟨oa, hoa⟩ := hM.strs ANALOG LABELS mem_slots_AL
@@ -231,8 +231,8 @@ theorem mutator_agree (F : FloatOps) (s s' : C3D) (op : Op) (hM : Mand s.groups)
       have hfr := updateParameters_frames hup
       exact agree_of_updateParameters F ({ s with frames := fr } : C3D) s' [] [] ol oa hol hoa hi hF (by rw [← hfr]; exact hs ol oa [] [] hol hoa (Or.inl rfl) (Or.inl rfl)) hup
     · have hfr := updateParameters_frames h
-      exact agree_of_updateParameters F s s' [n] [] ol oa hol hoa hi hF
-        (by rw [← hfr]; exact hs ol oa [n] [] hol hoa (Or.inr ⟨n, rfl, rfl⟩) (Or.inl rfl)) h
+      exact agree_of_updateParameters F s s' [rtrim n] [] ol oa hol hoa hi hF
+        (by rw [← hfr]; exact hs ol oa [rtrim n] [] hol hoa (Or.inr ⟨n, rfl, rfl⟩) (Or.inl rfl)) h
   | analog n =>
     simp only [step, C3D.analog] at h
     split at h
@@ -240,8 +240,8 @@ theorem mutator_agree (F : FloatOps) (s s' : C3D) (op : Op) (hM : Mand s.groups)
       have hfr := updateParameters_frames hup
       exact agree_of_updateParameters F ({ s with frames := fr } : C3D) s' [] [] ol oa hol hoa hi hF (by rw [← hfr]; exact hs ol oa [] [] hol hoa (Or.inl rfl) (Or.inl rfl)) hup
     · have hfr := updateParameters_frames h
-      exact agree_of_updateParameters F s s' [] [n] ol oa hol hoa hi hF
-        (by rw [← hfr]; exact hs ol oa [] [n] hol hoa (Or.inl rfl) (Or.inr ⟨n, rfl, rfl⟩)) h
+      exact agree_of_updateParameters F s s' [] [rtrim n] ol oa hol hoa hi hF
+        (by rw [← hfr]; exact hs ol oa [] [rtrim n] hol hoa (Or.inl rfl) (Or.inr ⟨n, rfl, rfl⟩)) h
 
 /-- the agreement, spelled out on a state that stores data: the words of the property -/
 theorem agree_counts (F : FloatOps) (s : C3D) (h : Agree F s) (f0 : Frame) (t : List Frame) (hft : s.frames = f0 :: t) :
